@@ -198,6 +198,29 @@ MUST_FIRE = [
      "    def _add_samples(self, fit_func, X, y, sample_weight=None):\n", "    def _add_samples(self, fit_func, X, y, sample_weight=None):\n        if self.window_size is not None and len(X) > self.window_size:\n            X, y = X[: self.window_size], y[: self.window_size]\n"),
     ("qbc-committee-list-shallow-copy", ["C06", "C05"], ["R6.4", "R5.3"], P + "pool/_query_by_committee.py",
      "est_arr = copy.deepcopy(ensemble)", "est_arr = copy.copy(ensemble)"),
+    # ---- round-3 seeded changes, third batch
+    ("nic-combine-params-in-place", ["C15"], ["R15.7"], P + "regressor/_nic_kernel_regressor.py",
+     "    mu_com = (kappa_1 * mu_1 + kappa_2 * mu_2) / kappa_com\n",
+     "    delta = mu_2\n    delta -= mu_1\n    mu_com = mu_1 + kappa_2 * delta / kappa_com\n"),
+    ("sklreg-fallback-shift-before-scale", ["C15"], ["R15.7"], P + "regressor/_wrapper.py",
+     "            y_samples *= self._label_std\n            y_samples += self._label_mean\n",
+     "            y_samples += self._label_mean\n            y_samples *= self._label_std\n"),
+    ("is-unlabeled-dtype-from-first-entry", ["C16"], ["R16.5"], P + "utils/_label.py",
+     "target_type = np.append(y.ravel(), missing_label).dtype", "target_type = np.array([*y.ravel()[:1], missing_label]).dtype"),
+    ("confusion-row-normalisation-without-keepdims", ["C17"], ["R17.5"], P + "utils/_multi_annot.py",
+     "cm = cm / cm.sum(axis=1, keepdims=True)", "cm = cm / cm.sum(axis=1)"),
+    ("proportional-uniform-fallback-over-nan", ["C18"], ["R18.3"], SEL,
+     "        p[np.isnan(p)] = 0\n", "        p[np.isnan(p)] = 0\n        if not p.any():\n            p[:] = 1 / len(p)\n"),
+    ("icw-partial-fit-default-unique", ["C19"], ["R19.9"], P + "pool/utils.py",
+     "        add_idx = check_indices(\n            add_idx, self.X, dim=0, unique=self.enforce_unique_samples\n        )\n",
+     "        add_idx = check_indices(add_idx, self.X, dim=0)\n"),
+    ("icw-nan-guard-all", ["C19"], ["R19.4"], P + "pool/utils.py", "if np.isnan(P).any():", "if np.isnan(P).all():", 3),
+    ("ssw-first-row-broadcast", ["C20"], ["R20.2"], P + "pool/_wrapper.py",
+     "new_utilities[:, new_candidates] = utilities[:, new_candidates]", "new_utilities[:, new_candidates] = utilities[0, new_candidates]"),
+    ("parallel-extra-nan-at-labeled", ["C20"], ["R20.1"], P + "pool/_wrapper.py",
+     "            utilities[mapping] = utilities_cand\n", "            utilities[mapping] = utilities_cand\n            utilities[is_labeled(y, missing_label=self.missing_label_)] = np.nan\n"),
+    ("saw-inner-always-sample-candidates", ["C20"], ["R20.3"], P + "pool/multiannotator/_wrapper.py",
+     "candidates_sq = mapping if mapping is not None else X_cand", "candidates_sq = X_cand"),
     # ---- C03
     ("split-set-state-deleted", ["C03"], ["R3"], BZ,
      "        self.random_state_.set_state(random_state_state)\n", "        pass\n"),
